@@ -9,25 +9,35 @@ set_option linter.unusedVariables false
 namespace C01
 variable {π α : Type}
 
-def mkRoute (n m : Nat) (g : Reg α) : Route α :=
-  { pos := n, m := m, use := g.use, raw := g.raw, key := g.key, handlers := g.handlers }
+def mkRoute (n k m : Nat) (g : Reg α) : Route α :=
+  { pos := n, m := m, use := g.use, raw := g.raw, key := g.key, handlers := g.handlers, eo := g.eo,
+    first := k, last := k }
 
 /-- `addRoute` on the (newest-first) stack of its method -/
-def pushRev (merge : Bool) (n m : Nat) (g : Reg α) : List (Route α) → List (Route α)
+def pushRev (merge : Bool) (n k m : Nat) (g : Reg α) : List (Route α) → List (Route α)
   | last :: rest =>
-    if merge && last.raw == g.raw && last.use == g.use then
-      { last with handlers := last.handlers ++ markSeam g.handlers } :: rest
-    else mkRoute (n + 1) m g :: last :: rest
-  | [] => [mkRoute (n + 1) m g]
+    if merge && last.raw == g.raw && last.eo == g.eo && last.use == g.use then
+      { last with handlers := last.handlers ++ markSeam g.handlers, last := k } :: rest
+    else mkRoute (n + 1) k m g :: last :: rest
+  | [] => [mkRoute (n + 1) k m g]
 
 theorem addRoute_rev (merge : Bool) (S : Stacks α) (m : Nat) (g : Reg α) (i : Nat) :
-    (addRoute merge S m g).rev i = if i = m then pushRev merge S.count m g (S.rev m) else S.rev i := by
+    (addRoute merge S m g).rev i = if i = m then pushRev merge S.count S.nreg m g (S.rev m) else S.rev i := by
   unfold addRoute
   cases hrev : S.rev m with
-  | nil => simp only [pushRev, mkRoute]
+  | nil => simp only [pushRev, mkRoute, newRoute]
   | cons last rest =>
-    simp only [pushRev, mkRoute]
+    simp only [pushRev, mkRoute, newRoute]
     split <;> simp
+
+theorem addRoute_nreg (merge : Bool) (S : Stacks α) (m : Nat) (g : Reg α) :
+    (addRoute merge S m g).nreg = S.nreg := by
+  unfold addRoute
+  cases hrev : S.rev m with
+  | nil => rfl
+  | cons last rest =>
+    simp only
+    split <;> rfl
 
 theorem addRoute_count (merge : Bool) (S : Stacks α) (m : Nat) (g : Reg α) :
     S.count ≤ (addRoute merge S m g).count ∧ (addRoute merge S m g).count ≤ S.count + 1 := by
@@ -41,7 +51,7 @@ theorem addRoute_count (merge : Bool) (S : Stacks α) (m : Nat) (g : Reg α) :
 /-- positions of the new stack are bounded by the new counter -/
 theorem pushRev_bound (merge : Bool) (S : Stacks α) (m : Nat) (g : Reg α)
     (hb : ∀ r ∈ S.rev m, r.pos ≤ S.count) :
-    ∀ r ∈ pushRev merge S.count m g (S.rev m), r.pos ≤ (addRoute merge S m g).count := by
+    ∀ r ∈ pushRev merge S.count S.nreg m g (S.rev m), r.pos ≤ (addRoute merge S m g).count := by
   unfold addRoute
   cases hrev : S.rev m with
   | nil => intro r hr; simp [pushRev, mkRoute] at hr; subst hr; simp
@@ -145,12 +155,39 @@ theorem InvS.addRoute (merge : Bool) (S : Stacks α) (h : InvS S) (m : Nat) (g :
     · simp only [hi, ↓reduceIte]
       have := h.len i; omega
 
-theorem InvS.addReg (merge : Bool) (S : Stacks α) (h : InvS S) (g : Reg α) : InvS (addReg merge S g) := by
-  unfold C01.addReg
+/-- the `addRoute` calls of one `register` (without the ghost counter's step) -/
+def foldReg (merge : Bool) (S : Stacks α) (g : Reg α) : Stacks α :=
+  g.methods.foldl (fun S m => addRoute merge S m g) S
+
+theorem addReg_rev_eq (merge : Bool) (S : Stacks α) (g : Reg α) : (addReg merge S g).rev = (foldReg merge S g).rev := rfl
+theorem addReg_count_eq (merge : Bool) (S : Stacks α) (g : Reg α) :
+    (addReg merge S g).count = (foldReg merge S g).count := rfl
+theorem addReg_stack_eq (merge : Bool) (S : Stacks α) (g : Reg α) (i : Nat) :
+    (addReg merge S g).stack i = (foldReg merge S g).stack i := rfl
+
+theorem foldl_addRoute_nreg (merge : Bool) (g : Reg α) (ms : List Nat) (S : Stacks α) :
+    (ms.foldl (fun S m => addRoute merge S m g) S).nreg = S.nreg := by
+  induction ms generalizing S with
+  | nil => rfl
+  | cons a ms ih => simp only [List.foldl_cons]; rw [ih, addRoute_nreg]
+
+theorem addReg_nreg (merge : Bool) (S : Stacks α) (g : Reg α) : (addReg merge S g).nreg = S.nreg + 1 := rfl
+
+theorem InvS.congr {S S' : Stacks α} (h : InvS S) (hr : S'.rev = S.rev) (hc : S'.count = S.count) : InvS S' := by
+  refine ⟨?_, ?_, ?_⟩
+  · intro i; simp only [Stacks.stack, hr]; exact h.sorted i
+  · intro i r hr'; rw [hr] at hr'; rw [hc]; exact h.bound i r hr'
+  · intro i; rw [hr, hc]; exact h.len i
+
+theorem InvS.foldReg (merge : Bool) (S : Stacks α) (h : InvS S) (g : Reg α) : InvS (foldReg merge S g) := by
+  unfold C01.foldReg
   generalize g.methods = ms
   induction ms generalizing S with
   | nil => exact h
   | cons a ms ih => exact ih _ (h.addRoute merge S a g)
+
+theorem InvS.addReg (merge : Bool) (S : Stacks α) (h : InvS S) (g : Reg α) : InvS (addReg merge S g) :=
+  (h.foldReg merge S g).congr rfl rfl
 
 theorem InvS.build (merge : Bool) (regs : List (Reg α)) : InvS (build merge regs) := by
   unfold C01.build
@@ -195,11 +232,13 @@ theorem FromRegs.mono {S : Stacks α} {regs regs' : List (Reg α)} (h : FromRegs
 
 theorem FromRegs.addReg (merge : Bool) (S : Stacks α) (regs : List (Reg α)) (h : FromRegs S regs)
     (g : Reg α) (hg : g ∈ regs) : FromRegs (addReg merge S g) regs := by
-  unfold C01.addReg
-  generalize g.methods = ms
-  induction ms generalizing S with
-  | nil => exact h
-  | cons a ms ih => exact ih _ (h.addRoute merge S regs a g hg)
+  have : FromRegs (foldReg merge S g) regs := by
+    unfold C01.foldReg
+    generalize g.methods = ms
+    induction ms generalizing S with
+    | nil => exact h
+    | cons a ms ih => exact ih _ (h.addRoute merge S regs a g hg)
+  exact this
 
 theorem fromRegs_build (merge : Bool) (regs : List (Reg α)) : FromRegs (build merge regs) regs := by
   unfold C01.build
@@ -214,48 +253,225 @@ theorem fromRegs_build (merge : Bool) (regs : List (Reg α)) : FromRegs (build m
         (fun x hx => hsub x (List.mem_cons_of_mem _ hx))
   exact key regs _ (fun i r hr => by simp [Stacks.empty] at hr) (fun g hg => hg)
 
-/-! ### the effect of one registration on one method stack -/
+/-! ### the ghost registration indices -/
 
-theorem addReg_rev (merge : Bool) (S : Stacks α) (g : Reg α) (hnd : g.methods.Nodup) (m : Nat) :
-    (m ∈ g.methods ∧ ∃ n, (addReg merge S g).rev m = pushRev merge n m g (S.rev m)) ∨
-    (m ∉ g.methods ∧ (addReg merge S g).rev m = S.rev m) := by
-  unfold C01.addReg
-  generalize g.methods = ms at hnd
+theorem fsorted_reverse_cons {x : Route α} {l : List (Route α)} (h : FSorted l.reverse)
+    (hx : ∀ r ∈ l, r.last < x.first) (hxx : x.first ≤ x.last) : FSorted (x :: l).reverse := by
+  refine ⟨?_, ?_⟩
+  · simp only [List.reverse_cons, List.pairwise_append]
+    refine ⟨h.1, by simp, ?_⟩
+    intro a ha b hb
+    simp only [List.mem_singleton] at hb
+    subst hb
+    exact hx a (List.mem_reverse.mp ha)
+  · intro a ha
+    simp only [List.reverse_cons, List.mem_append, List.mem_reverse, List.mem_singleton] at ha
+    rcases ha with ha | rfl
+    · exact h.2 a (List.mem_reverse.mpr ha)
+    · exact hxx
+
+/-- the invariant while the methods of one `register` call are being added: `todo` are the methods
+still to come, whose stacks do not yet hold a route of this registration -/
+structure InvF (S : Stacks α) (todo : List Nat) : Prop where
+  fs : ∀ i, FSorted (S.stack i)
+  lastle : ∀ i, ∀ r ∈ S.rev i, r.last ≤ S.nreg
+  mono : ∀ i j, ∀ x ∈ S.rev i, ∀ y ∈ S.rev j, x.first < y.first → x.pos < y.pos
+  fresh : ∀ a ∈ todo, ∀ r ∈ S.rev a, r.last < S.nreg
+
+theorem mem_pushRev (merge : Bool) (n k m : Nat) (g : Reg α) (l : List (Route α)) (r : Route α)
+    (hr : r ∈ pushRev merge n k m g l) :
+    (r.pos = n + 1 ∧ r.first = k ∧ r.last = k) ∨ (∃ r0 ∈ l, r.pos = r0.pos ∧ r.first = r0.first ∧
+      (r.last = r0.last ∨ r.last = k)) := by
+  cases l with
+  | nil => simp [pushRev, mkRoute] at hr; subst hr; left; exact ⟨rfl, rfl, rfl⟩
+  | cons last rest =>
+    simp only [pushRev] at hr
+    split at hr
+    · rcases List.mem_cons.mp hr with rfl | hr'
+      · right; exact ⟨last, List.mem_cons_self, rfl, rfl, Or.inr rfl⟩
+      · right; exact ⟨r, List.mem_cons_of_mem _ hr', rfl, rfl, Or.inl rfl⟩
+    · rcases List.mem_cons.mp hr with rfl | hr'
+      · left; exact ⟨rfl, rfl, rfl⟩
+      · right; exact ⟨r, hr', rfl, rfl, Or.inl rfl⟩
+
+theorem InvF.addRoute (merge : Bool) (S : Stacks α) (hinv : InvS S) (m : Nat) (todo : List Nat)
+    (h : InvF S (m :: todo)) (hnot : m ∉ todo) (g : Reg α) : InvF (C01.addRoute merge S m g) todo := by
+  have hfresh := h.fresh m List.mem_cons_self
+  refine ⟨?_, ?_, ?_, ?_⟩
+  · intro i
+    simp only [Stacks.stack, addRoute_rev]
+    by_cases hi : i = m
+    · subst hi
+      simp only [↓reduceIte]
+      have hs := h.fs i
+      simp only [Stacks.stack] at hs
+      cases hrev : S.rev i with
+      | nil => exact ⟨by simp [pushRev], by intro a ha; simp [pushRev, mkRoute] at ha; subst ha; simp⟩
+      | cons last rest =>
+        rw [hrev] at hs
+        simp only [pushRev]
+        have hlast := hfresh last (by rw [hrev]; exact List.mem_cons_self)
+        have hlf : last.first ≤ last.last := hs.2 last (by simp)
+        split
+        · -- merged: only `last` grows
+          have hrest : FSorted rest.reverse :=
+            ⟨by have := hs.1; simp only [List.reverse_cons, List.pairwise_append] at this; exact this.1,
+             fun a ha => hs.2 a (by simp at ha ⊢; exact Or.inl ha)⟩
+          apply fsorted_reverse_cons hrest
+          · intro r hr
+            have := hs.1
+            simp only [List.reverse_cons, List.pairwise_append] at this
+            exact this.2.2 r (List.mem_reverse.mpr hr) last (by simp)
+          · show last.first ≤ S.nreg
+            omega
+        · apply fsorted_reverse_cons hs
+          · intro r hr
+            exact hfresh r (by rw [hrev]; exact hr)
+          · simp [mkRoute]
+    · simp only [hi, ↓reduceIte]; exact h.fs i
+  · intro i r hr
+    rw [addRoute_nreg]
+    rw [addRoute_rev] at hr
+    by_cases hi : i = m
+    · subst hi
+      simp only [↓reduceIte] at hr
+      rcases mem_pushRev merge _ _ _ g _ r hr with ⟨_, _, hl⟩ | ⟨r0, hr0, _, _, hl | hl⟩
+      · omega
+      · have := h.lastle i r0 hr0; omega
+      · omega
+    · simp only [hi, ↓reduceIte] at hr; exact h.lastle i r hr
+  · -- positions grow with the registration index, across stacks
+    have hnew : ∀ i, ∀ x ∈ (C01.addRoute merge S m g).rev i,
+        (x.pos = S.count + 1 ∧ x.first = S.nreg) ∨ (∃ x0 ∈ S.rev i, x.pos = x0.pos ∧ x.first = x0.first) := by
+      intro i x hx
+      rw [addRoute_rev] at hx
+      by_cases hi : i = m
+      · subst hi
+        simp only [↓reduceIte] at hx
+        rcases mem_pushRev merge _ _ _ g _ x hx with ⟨h1, h2, _⟩ | ⟨r0, hr0, h1, h2, _⟩
+        · exact Or.inl ⟨h1, h2⟩
+        · exact Or.inr ⟨r0, hr0, h1, h2⟩
+      · simp only [hi, ↓reduceIte] at hx; exact Or.inr ⟨x, hx, rfl, rfl⟩
+    have hfl : ∀ i, ∀ x0 ∈ S.rev i, x0.first ≤ S.nreg := by
+      intro i x0 hx0
+      have h1 := (h.fs i).2 x0 (by simp [Stacks.stack]; exact hx0)
+      have h2 := h.lastle i x0 hx0
+      omega
+    intro i j x hx y hy hlt
+    rcases hnew i x hx with ⟨hxp, hxf⟩ | ⟨x0, hx0, hxp, hxf⟩ <;>
+      rcases hnew j y hy with ⟨hyp, hyf⟩ | ⟨y0, hy0, hyp, hyf⟩
+    · omega
+    · have := hfl j y0 hy0; omega
+    · have := (hinv.bound i x0 hx0).1; omega
+    · rw [hxp, hyp]; exact h.mono i j x0 hx0 y0 hy0 (by omega)
+  · intro a ha r hr
+    rw [addRoute_nreg]
+    rw [addRoute_rev] at hr
+    have hne : a ≠ m := fun e => hnot (e ▸ ha)
+    simp only [hne, ↓reduceIte] at hr
+    exact h.fresh a (List.mem_cons_of_mem _ ha) r hr
+
+theorem InvF.foldl (merge : Bool) (g : Reg α) (ms : List Nat) (hnd : ms.Nodup) (S : Stacks α) (hinv : InvS S)
+    (h : InvF S ms) : InvF (ms.foldl (fun S m => C01.addRoute merge S m g) S) [] := by
   induction ms generalizing S with
-  | nil => right; simp
+  | nil => exact h
   | cons a ms ih =>
     rw [List.nodup_cons] at hnd
     simp only [List.foldl_cons]
-    by_cases hma : m = a
-    · subst hma
-      left
-      refine ⟨List.mem_cons_self, S.count, ?_⟩
-      rcases ih (addRoute merge S m g) hnd.2 with ⟨hin, _⟩ | ⟨_, heq⟩
-      · exact absurd hin hnd.1
-      · rw [heq, addRoute_rev]; simp
-    · rcases ih (addRoute merge S a g) hnd.2 with ⟨hin, n, heq⟩ | ⟨hnin, heq⟩
-      · left
-        refine ⟨List.mem_cons_of_mem _ hin, n, ?_⟩
-        rw [heq, addRoute_rev]; simp [hma]
-      · right
-        refine ⟨by simp [hma, hnin], ?_⟩
-        rw [heq, addRoute_rev]; simp [hma]
+    exact ih hnd.2 _ (hinv.addRoute merge S a g) (h.addRoute merge S hinv a ms hnd.1 g)
+
+/-- the invariant of the ghost indices between two `register` calls -/
+structure InvG (S : Stacks α) : Prop where
+  fs : ∀ i, FSorted (S.stack i)
+  lastlt : ∀ i, ∀ r ∈ S.rev i, r.last < S.nreg
+  mono : ∀ i j, ∀ x ∈ S.rev i, ∀ y ∈ S.rev j, x.first < y.first → x.pos < y.pos
+
+theorem InvG.empty : InvG (Stacks.empty : Stacks α) :=
+  ⟨fun _ => ⟨by simp [Stacks.empty, Stacks.stack], by simp [Stacks.empty, Stacks.stack]⟩,
+   fun _ r hr => by simp [Stacks.empty] at hr, fun _ _ x hx => by simp [Stacks.empty] at hx⟩
+
+theorem InvG.addReg (merge : Bool) (S : Stacks α) (hinv : InvS S) (h : InvG S) (g : Reg α)
+    (hnd : g.methods.Nodup) : InvG (C01.addReg merge S g) := by
+  have hF : InvF S g.methods :=
+    ⟨h.fs, fun i r hr => Nat.le_of_lt (h.lastlt i r hr), h.mono, fun a _ r hr => h.lastlt a r hr⟩
+  have := InvF.foldl merge g g.methods hnd S hinv hF
+  have hn := foldl_addRoute_nreg merge g g.methods S
+  refine ⟨?_, ?_, ?_⟩
+  · intro i; rw [addReg_stack_eq]; exact this.fs i
+  · intro i r hr
+    rw [addReg_rev_eq] at hr
+    have := this.lastle i r hr
+    rw [addReg_nreg]
+    unfold C01.foldReg at hr
+    omega
+  · intro i j x hx y hy
+    rw [addReg_rev_eq] at hx hy
+    exact this.mono i j x hx y hy
+
+theorem InvG.build (merge : Bool) (regs : List (Reg α)) (hwf : ∀ g ∈ regs, g.methods.Nodup) :
+    InvG (build merge regs) := by
+  unfold C01.build
+  have key : ∀ (gs : List (Reg α)) (S : Stacks α), InvS S → InvG S → (∀ g ∈ gs, g.methods.Nodup) →
+      InvG (gs.foldl (C01.addReg merge) S) := by
+    intro gs
+    induction gs with
+    | nil => intro S _ h _; exact h
+    | cons g gs ih =>
+      intro S hinv h hnd
+      exact ih _ (hinv.addReg merge S g) (h.addReg merge S hinv g (hnd g List.mem_cons_self))
+        (fun x hx => hnd x (List.mem_cons_of_mem _ hx))
+  exact key regs _ InvS.empty InvG.empty hwf
+
+/-! ### the effect of one registration on one method stack -/
+
+theorem addReg_rev (merge : Bool) (S : Stacks α) (g : Reg α) (hnd : g.methods.Nodup) (m : Nat) :
+    (m ∈ g.methods ∧ ∃ n, (addReg merge S g).rev m = pushRev merge n S.nreg m g (S.rev m)) ∨
+    (m ∉ g.methods ∧ (addReg merge S g).rev m = S.rev m) := by
+  rw [addReg_rev_eq]
+  unfold C01.foldReg
+  have key : ∀ (ms : List Nat), ms.Nodup → ∀ S' : Stacks α, S'.nreg = S.nreg →
+      (m ∈ ms ∧ ∃ n, (ms.foldl (fun S m => addRoute merge S m g) S').rev m = pushRev merge n S.nreg m g (S'.rev m)) ∨
+      (m ∉ ms ∧ (ms.foldl (fun S m => addRoute merge S m g) S').rev m = S'.rev m) := by
+    intro ms
+    induction ms with
+    | nil => intro _ S' _; right; simp
+    | cons a ms ih =>
+      intro hnd S' hn
+      rw [List.nodup_cons] at hnd
+      simp only [List.foldl_cons]
+      have hn' : (addRoute merge S' a g).nreg = S.nreg := by rw [addRoute_nreg, hn]
+      by_cases hma : m = a
+      · subst hma
+        left
+        refine ⟨List.mem_cons_self, S'.count, ?_⟩
+        rcases ih hnd.2 (addRoute merge S' m g) hn' with ⟨hin, _⟩ | ⟨_, heq⟩
+        · exact absurd hin hnd.1
+        · rw [heq, addRoute_rev, hn]; simp
+      · rcases ih hnd.2 (addRoute merge S' a g) hn' with ⟨hin, n, heq⟩ | ⟨hnin, heq⟩
+        · left
+          refine ⟨List.mem_cons_of_mem _ hin, n, ?_⟩
+          rw [heq, addRoute_rev]; simp [hma]
+        · right
+          refine ⟨by simp [hma, hnin], ?_⟩
+          rw [heq, addRoute_rev]; simp [hma]
+  exact key g.methods hnd S rfl
 
 /-- forward view of `pushRev` -/
-def snocRoute (merge : Bool) (n m : Nat) (g : Reg α) : List (Route α) → List (Route α)
-  | [] => [mkRoute (n + 1) m g]
+def snocRoute (merge : Bool) (n k m : Nat) (g : Reg α) : List (Route α) → List (Route α)
+  | [] => [mkRoute (n + 1) k m g]
   | [r] =>
-    if merge && r.raw == g.raw && r.use == g.use then [{ r with handlers := r.handlers ++ markSeam g.handlers }]
-    else [r, mkRoute (n + 1) m g]
-  | r :: r2 :: rs => r :: snocRoute merge n m g (r2 :: rs)
+    if merge && r.raw == g.raw && r.eo == g.eo && r.use == g.use then
+      [{ r with handlers := r.handlers ++ markSeam g.handlers, last := k }]
+    else [r, mkRoute (n + 1) k m g]
+  | r :: r2 :: rs => r :: snocRoute merge n k m g (r2 :: rs)
 
-theorem pushRev_append_singleton (merge : Bool) (n m : Nat) (g : Reg α) (x : Route α) (xs : List (Route α))
-    (r : Route α) : pushRev merge n m g ((x :: xs) ++ [r]) = pushRev merge n m g (x :: xs) ++ [r] := by
+theorem pushRev_append_singleton (merge : Bool) (n k m : Nat) (g : Reg α) (x : Route α) (xs : List (Route α))
+    (r : Route α) : pushRev merge n k m g ((x :: xs) ++ [r]) = pushRev merge n k m g (x :: xs) ++ [r] := by
   simp only [List.cons_append, pushRev]
   split <;> simp
 
-theorem pushRev_reverse (merge : Bool) (n m : Nat) (g : Reg α) (rs : List (Route α)) :
-    (pushRev merge n m g rs.reverse).reverse = snocRoute merge n m g rs := by
+theorem pushRev_reverse (merge : Bool) (n k m : Nat) (g : Reg α) (rs : List (Route α)) :
+    (pushRev merge n k m g rs.reverse).reverse = snocRoute merge n k m g rs := by
   induction rs using snocRoute.induct merge g with
   | case1 => simp [pushRev, snocRoute]
   | case2 r hc => simp [pushRev, snocRoute, hc]
@@ -276,93 +492,109 @@ theorem markSeam_append (a b : List (Handler α)) (ha : a ≠ []) : markSeam (a 
   | cons h t => rfl
 
 /-- handlers of a route built from well-formed registrations are non-empty -/
-theorem corr_handlers_ne (m : Nat) {r : Route α} {rs : List (Route α)} {gs : List (Reg α)}
-    (hc : Corr m (r :: rs) gs) (hwf : ∀ g ∈ gs, WFReg g) : r.handlers ≠ [] := by
-  obtain ⟨h, t, heq, _⟩ := corr_head m hc hwf
+theorem corrI_handlers_ne (m : Nat) {b : Nat} {r : Route α} {rs : List (Route α)} {gs : List (Reg α)}
+    (hc : CorrI m b (r :: rs) gs) (hwf : ∀ g ∈ gs, WFReg g) : r.handlers ≠ [] := by
+  obtain ⟨h, t, heq, _⟩ := corrI_head m hc hwf
   rw [heq]; simp
 
-theorem corr_snoc_skip (m : Nat) {rs : List (Route α)} {gs : List (Reg α)} (hc : Corr m rs gs)
-    (g : Reg α) (hm : m ∉ g.methods) : Corr m rs (gs ++ [g]) := by
+theorem corrI_snoc_skip (m : Nat) {b : Nat} {rs : List (Route α)} {gs : List (Reg α)} (hc : CorrI m b rs gs)
+    (g : Reg α) (hm : m ∉ g.methods) : CorrI m b rs (gs ++ [g]) := by
   induction hc with
-  | nil => exact Corr.skip hm Corr.nil
-  | skip h _ ih => exact Corr.skip h ih
-  | one h1 h2 h3 h4 h5 _ ih => exact Corr.one h1 h2 h3 h4 h5 ih
-  | merged h1 h2 h3 h4 h5 h6 h7 h8 _ ih => exact Corr.merged h1 h2 h3 h4 h5 h6 h7 h8 ih
+  | nil => exact CorrI.skip hm CorrI.nil
+  | skip h _ ih => exact CorrI.skip h ih
+  | one h1 h2 h3 h4 h5 h6 h7 h8 _ ih => exact CorrI.one h1 h2 h3 h4 h5 h6 h7 h8 ih
+  | merged h1 h2 h3 h4 h5 h6 h7 h8 h9 h10 h11 h12 _ ih =>
+    exact CorrI.merged h1 h2 h3 h4 h5 h6 h7 h8 h9 h10 h11 h12 ih
 
-theorem corr_snoc_in (merge : Bool) (n m : Nat) {rs : List (Route α)} {gs : List (Reg α)} (hc : Corr m rs gs)
-    (hwf : ∀ g ∈ gs, WFReg g) (g : Reg α) (hm : m ∈ g.methods) :
-    Corr m (snocRoute merge n m g rs) (gs ++ [g]) := by
+theorem corrI_snoc_in (merge : Bool) (n m : Nat) {b : Nat} {rs : List (Route α)} {gs : List (Reg α)}
+    (hc : CorrI m b rs gs) (hwf : ∀ g ∈ gs, WFReg g) (g : Reg α) (hm : m ∈ g.methods) :
+    CorrI m b (snocRoute merge n (b + gs.length) m g rs) (gs ++ [g]) := by
   induction hc with
-  | nil =>
-    exact Corr.one hm rfl rfl rfl rfl Corr.nil
-  | skip h _ ih => exact Corr.skip h (ih (fun x hx => hwf x (List.mem_cons_of_mem _ hx)))
-  | @one r rs g0 gs h1 h2 h3 h4 h5 hc' ih =>
+  | @nil b =>
+    exact CorrI.one hm rfl rfl rfl rfl rfl (by simp [mkRoute]) (by simp [mkRoute]) CorrI.nil
+  | @skip b rs gs g0 h _ ih =>
+    have e : b + (g0 :: gs).length = (b + 1) + gs.length := by simp; omega
+    rw [e]
+    exact CorrI.skip h (ih (fun x hx => hwf x (List.mem_cons_of_mem _ hx)))
+  | @one b r rs g0 gs h1 h2 h3 h4 h5 h6 h7 h8 hc' ih =>
     have hwf' : ∀ x ∈ gs, WFReg x := fun x hx => hwf x (List.mem_cons_of_mem _ hx)
+    have e : b + (g0 :: gs).length = (b + 1) + gs.length := by simp; omega
+    rw [e]
     have ih' := ih hwf'
     cases rs with
     | nil =>
       simp only [snocRoute] at ih' ⊢
       split
       · rename_i hcond
-        refine Corr.merged (r' := mkRoute (n + 1) m g) h1 h2 h3 h4 ?_ ?_ rfl ?_ ih'
-        · simp only [Bool.and_eq_true, beq_iff_eq] at hcond
-          simp [mkRoute, ← hcond.1.2, h2]
-        · simp only [Bool.and_eq_true, beq_iff_eq] at hcond
-          simp [mkRoute, ← hcond.2, h3]
+        simp only [Bool.and_eq_true, beq_iff_eq] at hcond
+        refine CorrI.merged (r' := mkRoute (n + 1) (b + 1 + gs.length) m g) h1 h2 h3 h4 ?_ ?_ rfl ?_ h6 ?_ h7 rfl ih'
+        · simp [mkRoute, ← hcond.1.1.2, h2]
+        · simp [mkRoute, ← hcond.2, h3]
         · simp [mkRoute, h5]
-      · exact Corr.one h1 h2 h3 h4 h5 ih'
+        · simp [mkRoute, ← hcond.1.2, h6]
+      · exact CorrI.one h1 h2 h3 h4 h5 h6 h7 h8 ih'
     | cons r2 rs2 =>
       simp only [snocRoute]
-      exact Corr.one h1 h2 h3 h4 h5 ih'
-  | @merged r r' rs g0 gs h1 h2 h3 h4 h5 h6 h7 h8 hc' ih =>
+      exact CorrI.one h1 h2 h3 h4 h5 h6 h7 h8 ih'
+  | @merged b r r' rs g0 gs h1 h2 h3 h4 h5 h6 h7 h8 h9 h10 h11 h12 hc' ih =>
     have hwf' : ∀ x ∈ gs, WFReg x := fun x hx => hwf x (List.mem_cons_of_mem _ hx)
+    have e : b + (g0 :: gs).length = (b + 1) + gs.length := by simp; omega
+    rw [e]
     have ih' := ih hwf'
     cases rs with
     | nil =>
       simp only [snocRoute] at ih' ⊢
-      have hcondeq : (merge && r.raw == g.raw && r.use == g.use) = (merge && r'.raw == g.raw && r'.use == g.use) := by
-        rw [h2, h3, h5, h6]
+      have hcondeq : (merge && r.raw == g.raw && r.eo == g.eo && r.use == g.use) =
+          (merge && r'.raw == g.raw && r'.eo == g.eo && r'.use == g.use) := by
+        rw [h2, h3, h5, h6, h9, h10]
       rw [hcondeq]
       split
       · rename_i hcond
         rw [if_pos hcond] at ih'
-        refine Corr.merged (r' := { r' with handlers := r'.handlers ++ markSeam g.handlers }) h1 h2 h3 h4 h5 h6 h7 ?_ ih'
+        refine CorrI.merged (r' := { r' with handlers := r'.handlers ++ markSeam g.handlers, last := b + 1 + gs.length })
+          h1 h2 h3 h4 h5 h6 h7 ?_ h9 h10 h11 rfl ih'
         simp only [h8]
-        rw [markSeam_append _ _ (corr_handlers_ne m hc' hwf'), List.append_assoc]
+        rw [markSeam_append _ _ (corrI_handlers_ne m hc' hwf'), List.append_assoc]
       · rename_i hcond
         rw [if_neg hcond] at ih'
-        exact Corr.merged h1 h2 h3 h4 h5 h6 h7 h8 ih'
+        exact CorrI.merged h1 h2 h3 h4 h5 h6 h7 h8 h9 h10 h11 h12 ih'
     | cons r2 rs2 =>
       simp only [snocRoute] at ih' ⊢
-      exact Corr.merged h1 h2 h3 h4 h5 h6 h7 h8 ih'
+      exact CorrI.merged h1 h2 h3 h4 h5 h6 h7 h8 h9 h10 h11 h12 ih'
+
+theorem foldl_addReg_nreg (merge : Bool) (gs : List (Reg α)) (S : Stacks α) :
+    (gs.foldl (addReg merge) S).nreg = S.nreg + gs.length := by
+  induction gs generalizing S with
+  | nil => rfl
+  | cons g gs ih => simp only [List.foldl_cons, List.length_cons]; rw [ih, addReg_nreg]; omega
 
 theorem corr_build (merge : Bool) (regs : List (Reg α)) (hwf : ∀ g ∈ regs, WFReg g) (m : Nat) :
-    Corr m ((build merge regs).stack m) regs := by
+    CorrI m 0 ((build merge regs).stack m) regs := by
   unfold C01.build
   have key : ∀ (gs : List (Reg α)) (S : Stacks α) (done : List (Reg α)),
-      Corr m (S.stack m) done → (∀ g ∈ done, WFReg g) → (∀ g ∈ gs, WFReg g) →
-      Corr m ((gs.foldl (addReg merge) S).stack m) (done ++ gs) := by
+      CorrI m 0 (S.stack m) done → S.nreg = done.length → (∀ g ∈ done, WFReg g) → (∀ g ∈ gs, WFReg g) →
+      CorrI m 0 ((gs.foldl (addReg merge) S).stack m) (done ++ gs) := by
     intro gs
     induction gs with
-    | nil => intro S done hc _ _; simpa using hc
+    | nil => intro S done hc _ _ _; simpa using hc
     | cons g gs ih =>
-      intro S done hc hwd hwg
+      intro S done hc hn hwd hwg
       have wg := hwg g List.mem_cons_self
-      have hstep : Corr m ((addReg merge S g).stack m) (done ++ [g]) := by
+      have hstep : CorrI m 0 ((addReg merge S g).stack m) (done ++ [g]) := by
         rcases addReg_rev merge S g wg.nodup m with ⟨hin, n, heq⟩ | ⟨hnin, heq⟩
         · simp only [Stacks.stack, heq]
-          have := corr_snoc_in merge n m hc hwd g hin
+          have := corrI_snoc_in merge n m hc hwd g hin
           rw [← pushRev_reverse] at this
-          simpa [Stacks.stack] using this
+          simpa [Stacks.stack, hn] using this
         · simp only [Stacks.stack, heq]
-          exact corr_snoc_skip m hc g hnin
-      have := ih (addReg merge S g) (done ++ [g]) hstep
+          exact corrI_snoc_skip m hc g hnin
+      have := ih (addReg merge S g) (done ++ [g]) hstep (by rw [addReg_nreg, hn]; simp)
         (by intro x hx; rcases List.mem_append.mp hx with h | h
             · exact hwd x h
             · simp only [List.mem_singleton] at h; subst h; exact wg)
         (fun x hx => hwg x (List.mem_cons_of_mem _ hx))
       simpa [List.append_assoc] using this
-  have := key regs Stacks.empty [] (by simp [Stacks.stack, Stacks.empty]; exact Corr.nil) (by simp) hwf
+  have := key regs Stacks.empty [] (by simp [Stacks.stack, Stacks.empty]; exact CorrI.nil) rfl (by simp) hwf
   simpa using this
 
 end C01
